@@ -138,6 +138,16 @@ CHECKS = {
              'real client connection; random rules over a larger value space and proxy subscriptions are judged by TLC.',
         design_ref='DESIGN.md section 3 (C12)',
         note='Trusts: TLC; sender= and arg0namespace are outside the property; only argument index 0 is modelled.'),
+    'C16': dict(
+        technique='TLA+ spec ObjTree.tla (paths as element sequences, remote view as a function of the export set) '
+                  'model-checked by TLC; graph edges and walks replayed on a real DBusObjectHandler; histories validated by TLC',
+        text='TLC explores every export/unexport history over 6 paths (parent, child, grandchild, siblings sharing a textual '
+             'prefix, root) x 2 object classes; after every step Introspect, GetManagedObjects and an ordinary call are sent '
+             'to every path of the universe through handleMethodCallMessage and compared with the model view (children names, '
+             'failure for paths with neither object nor descendants, managed objects with interfaces and readable properties, '
+             'UnknownObject), as is the InterfacesAdded/Removed signal of the step; random histories over 9 paths are validated by TLC.',
+        design_ref='DESIGN.md section 3 (C16)',
+        note='Trusts: TLC; two object classes stand for all interface/property combinations.'),
 }
 
 NOT_YET = 'check not built yet (build in progress; see DESIGN.md section 6)'
